@@ -25,10 +25,10 @@ open Gen.JpegLossless
 /-! ## L1 — the copies of the neighbour-selection tree agree -/
 
 /-- encoder scan, decoder scan and frequency pass of jpeg/lossless predict the same value -/
-theorem neighbour_rules_agree (P predictor row col : Int) (nb : Nb) :
+theorem neighbour_rules_agree (P predictor row col : Int) (nb : Nb) (hr : 0 ≤ row) (hc : 0 ≤ col) :
     decPredicted P predictor row col nb = encPredicted P predictor row col nb ∧
     freqPredicted P predictor row col nb = encPredicted P predictor row col nb :=
-  ⟨decPredicted_eq_enc P predictor row col nb, freqPredicted_eq_enc P predictor row col nb⟩
+  ⟨decPredicted_eq_enc P predictor row col nb, freqPredicted_eq_enc P predictor row col nb hr hc⟩
 
 /-- the SV1 trees (scan and frequency pass) are the general tree at predictor 1 -/
 theorem sv1_rules_agree (P row col : Int) (nb : Nb) (hr : 0 ≤ row) (hc : 0 ≤ col) :
